@@ -103,10 +103,21 @@ def prop(program):
         if key[1] and key in sids:
             reused = True
         sids[key] = u
-    vs += monitors.mon_delivery(tr, PID, skip_uids=disturbed)
+    # a reused id whose previous life ended abnormally (cancel) may still have frames of that life in flight: the protocol
+    # has no way to tell them from the new interaction's frames, so the new interaction is not judged either
+    skip = set(disturbed)
+    seen_disturbed = set()
+    for u in tr.scn.started:
+        key = (tr.scn.st[u]['spec']['side'], tr.scn.st[u]['sid'])
+        if key in seen_disturbed:
+            skip.add(u)
+        if u in disturbed:
+            seen_disturbed.add(key)
+    vs += monitors.mon_delivery(tr, PID, skip_uids=skip)
     abnormal_channel = any(tr.scn.st[u]['spec']['k'] == 'ch' and u in disturbed for u in tr.scn.started)
     info['nt'] = reused or abnormal_channel
-    info['classes'] = ['reused_id=%s' % reused, 'abnormal_channel_end=%s' % abnormal_channel, 'quiescent=%s' % tr.quiet,
+    info['classes'] = ['reused_id=%s' % reused, 'reused_id_judged=%s' % (reused and len(skip) == len(disturbed)),
+                       'abnormal_channel_end=%s' % abnormal_channel, 'quiescent=%s' % tr.quiet,
                        'interactions=%s' % (len(tr.scn.started) if len(tr.scn.started) < 9 else '9+'),
                        'all_terminated=%s' % all(monitors.api_terminated(tr, u) for u in tr.scn.started)]
     return vs
